@@ -2,6 +2,8 @@ package props
 
 import (
 	"fmt"
+	"go/parser"
+	"go/token"
 	"regexp"
 	"strings"
 
@@ -61,6 +63,17 @@ func c01Lines(tag string, src string) []string {
 		out = append(out, tag+l)
 	}
 	return out
+}
+
+var parseCache = map[string]bool{}
+
+func parsesAsGo(src string) bool {
+	if v, ok := parseCache[src]; ok {
+		return v
+	}
+	_, err := parser.ParseFile(token.NewFileSet(), "a.go", src, parser.SkipObjectResolution)
+	parseCache[src] = err == nil
+	return err == nil
 }
 
 var wordRe = func(w string) *regexp.Regexp { return regexp.MustCompile(`\b` + w + `\b`) }
@@ -132,6 +145,33 @@ func c01Gen(tier string, emit func(any)) {
 			variants = append(variants, variant{"hole:" + strings.TrimPrefix(h.What, "#0/"), []model.MetaVar{{Name: h.MvName, Kind: h.MvKind}}, h.Src, p2})
 		}
 		muts := gen.Mutants(k.Kind, k.Src)
+		if tier == "thorough" {
+			// every slot of the context catalogue instead of two, and second-order deviations (a mutant of a mutant)
+			switch k.Kind {
+			case "expr":
+				ctxs = gen.ExprContexts()
+			case "stmts":
+				ctxs = gen.StmtContexts()
+			case "decl":
+				if strings.HasPrefix(k.Src, "func") {
+					ctxs = gen.DeclContexts()[:3]
+				}
+			}
+			seen := map[string]bool{k.Src: true}
+			for _, m := range muts {
+				seen[m.Src] = true
+			}
+			var second []gen.Mutant
+			for _, m := range muts {
+				for _, m2 := range gen.Mutants(k.Kind, m.Src) {
+					if !seen[m2.Src] {
+						seen[m2.Src] = true
+						second = append(second, gen.Mutant{What: m.What + "+" + m2.What, Src: m2.Src})
+					}
+				}
+			}
+			muts = append(muts, second...)
+		}
 		for _, va := range variants {
 			lines := append(c01Lines("-", va.src), c01Lines("+", va.plus)...)
 			ch := &model.Change{Kind: k.Kind, Meta: va.meta, Lines: model.L(lines...)}
@@ -139,8 +179,14 @@ func c01Gen(tier string, emit func(any)) {
 				if cx.ID == "" {
 					panic("harness: missing context")
 				}
+				if !parsesAsGo(cx.Fill(k.Src)) {
+					continue // e.g. a composite literal in the header of an if statement
+				}
 				emit(&MCase{Change: ch, File: cx.Fill(k.Src), Tag: fmt.Sprintf("a-field/%s/%s/%s/self", k.ID, va.id, cx.ID)})
 				for _, m := range muts {
+					if tier == "thorough" && !parsesAsGo(cx.Fill(m.Src)) {
+						continue
+					}
 					emit(&MCase{Change: ch, File: cx.Fill(m.Src), Tag: fmt.Sprintf("a-field/%s/%s/%s/mutant:%s", k.ID, va.id, cx.ID, m.What)})
 				}
 			}
